@@ -329,3 +329,82 @@ def g2_cases(seed: int, n: int, **kw) -> list[dict]:
     for _ in range(n):
         out.append(G2(rng, **kw).grammar())
     return out
+
+
+# --------------------------------------------------------------------------- optimizer-biased family
+
+PASS_NAMES = ["unroll", "skip", "inline built-in", "squash_choice", "inline silent"]
+
+
+def opt_cases(seed: int, n: int) -> list[dict]:
+    """Grammars built around the optimizer's rewrite triggers, each with a pass configuration:
+    the default pipeline, a single pass, or a seeded subset / permutation / repetition."""
+    rng = random.Random(seed)
+    lits = ['"a"', '"ab"', '"abc"', '"b"', '"ba"', '^"a"', '^"ab"', '^"B"', "'a'..'b'", "'b'..'c'", "ASCII_DIGIT",
+            "NEWLINE", '"k"', '^"k"', '"ß"', '^"ß"', '"a" | "b"', "LETTER"]
+    cases = []
+    for i in range(n):
+        k = i % 6
+        rules = []
+        alpha = "ab"
+        if k == 0:      # choices of literals sharing prefixes, in every order
+            alts = rng.sample(lits, rng.randint(2, 5))
+            body = " | ".join(a if " | " not in a else f"({a})" for a in alts)
+            tail = rng.choice(["", ' ~ "b"', ' ~ "c"', "+", "*"])
+            rules.append(f"start = {rng.choice(['', '@', '$'])}{{ ({body}){tail} }}")
+            alpha = "abck"[: rng.randint(2, 4)]
+        elif k == 1:    # skip-until shapes, inside and outside atomic rules, with and without trivia
+            stop = rng.choice(['"b"', '("b" | "ab")', 'stop', '("b" | stop)', '""'])
+            mod = rng.choice(["", "@", "$", "!", "_"])
+            rules.append(f'start = {mod}{{ "a"? ~ (!{stop} ~ ANY)* ~ "b"? }}')
+            rules.append('stop = { "ba" }')
+        elif k == 2:    # silent rules referenced under every modifier; tags
+            rules.append(f'start = {rng.choice(["", "@", "$", "!"])}{{ {rng.choice(["", "#tg = "])}sil ~ "b"? ~ nr* }}')
+            rules.append(f'sil = {rng.choice(["_", "_"])}{{ "a" ~ {rng.choice(["nr", "\"b\"", "sil2"])} }}')
+            rules.append('sil2 = _{ "a" | "b" ~ "a" }')
+            rules.append('nr = { "a" | "b" }')
+        elif k == 3:    # explicit references to trivia rules
+            rules.append(f'start = {rng.choice(["", "@", "$"])}{{ "a" ~ WHITESPACE ~ "b" ~ COMMENT? }}')
+        elif k == 4:    # every bounded repetition form around sequences
+            op = rng.choice(["+", "{2}", "{1,}", "{,2}", "{1,2}", "{0,1}", "{2,3}"])
+            rules.append(f'start = {rng.choice(["", "@", "!"])}{{ ("a" ~ "b"?){op} ~ "a"* }}')
+        else:           # whitespace shapes the skip-rule fusion looks at
+            rules.append('start = { "a" ~ "b" ~ ("a" | "b")* }')
+        trivia = rng.choice(TRIVIA) if k != 3 else rng.choice(TRIVIA[1:])
+        if k == 5:
+            trivia = rng.choice([
+                ("ws-choice3", 'WHITESPACE = _{ " " | "\\t" | NEWLINE }', " \n"),
+                ("ws-overlap", 'WHITESPACE = _{ " " | "  " | "a " }', " "),
+                ("ws-ci", 'WHITESPACE = _{ " " | ^"x" | "xy" }', " x"),
+                ("cm-only", 'COMMENT = _{ "#" ~ (!"#" ~ ANY)* ~ "#" }', "#"),
+                ("ws-nonsilent-choice", 'WHITESPACE = { " " | "\\t" }', " "),
+            ])
+        if k == 3 and "COMMENT" not in trivia[1]:
+            rules.append('COMMENT = _{ "#" }')
+            alpha += "#"
+        if k == 3 and "WHITESPACE" not in trivia[1]:
+            rules.append('WHITESPACE = _{ " " ~ " "? }')
+            alpha += " "
+        if trivia[1]:
+            rules.append(trivia[1])
+        for ch in trivia[2]:
+            if ch not in alpha:
+                alpha += ch
+        r = rng.random()
+        if r < 0.4:
+            passes = None
+        elif r < 0.7:
+            passes = [rng.choice(PASS_NAMES)]
+        else:
+            passes = [rng.choice(PASS_NAMES) for _ in range(rng.randint(0, 6))]
+        alpha = alpha[:5]
+        cases.append({
+            "family": "OPT",
+            "label": f"optimizer trigger kind {k} trivia {trivia[0]} passes {passes if passes is not None else 'default'}",
+            "grammar": "\n".join(rules) + "\n",
+            "rules": ["start"],
+            "alphabet": alpha,
+            "maxlen": 4 if len(alpha) <= 3 else 3,
+            "passes": passes,
+        })
+    return cases
